@@ -266,11 +266,8 @@ func check(c *core.Ctx, f map[string][]string) {
 				c.Violation(k, "background-image URL %d decodes to %+q, which URLSanitized does not approve (input %+q)", i, decoded, u)
 				return
 			}
-			eq, quirk := eqModSwallowedSpace(safehtml.URLSanitized(u).String(), decoded)
-			if quirk {
-				c.Count("swallowed_space_quirk", 1)
-			}
-			if !eq {
+			// exactly: a space after an escaped character must survive (K107)
+			if cssCoerce(safehtml.URLSanitized(u).String()) != decoded {
 				c.Violation(k, "background-image URL %d decodes to %+q, not to the sanitized input %+q", i, decoded, safehtml.URLSanitized(u).String())
 				return
 			}
@@ -294,12 +291,14 @@ func check(c *core.Ctx, f map[string][]string) {
 			if len(name) >= 3 && strings.HasPrefix(name, `"`) && strings.HasSuffix(name, `"`) {
 				inner = name[1 : len(name)-1]
 			}
-			eq1, q1 := eqModSwallowedSpace(name, part[0].Value)
-			eq2, q2 := eqModSwallowedSpace(inner, part[0].Value)
-			if q1 || q2 {
-				c.Count("swallowed_space_quirk", 1)
-			}
-			if !eq1 && !eq2 {
+			exact := cssCoerce(name) == part[0].Value || cssCoerce(inner) == part[0].Value
+			eq1, _ := eqModSwallowedSpace(name, part[0].Value)
+			eq2, _ := eqModSwallowedSpace(inner, part[0].Value)
+			if !exact && (eq1 || eq2) && !c.Strict {
+				// known finding K107b: in font-family names the space after an escaped character
+				// is consumed by CSS parsers (TestStyleFromProperties pins the output)
+				c.Count("excluded_K107b_space_after_escape_in_font_name", 1)
+			} else if !exact {
 				c.Violation(k, "font-family value %d decodes to %+q for name %+q", i, part[0].Value, name)
 				return
 			}
